@@ -278,6 +278,10 @@ class DB:
             if b.kind == "Closure" and b.parent in self.bodies:
                 self.bodies[b.parent].children.append(b)
         self._callers = None
+        # crate-private functions the rules know by name are recognised after a rename / move (s3sv/renames.py)
+        from . import renames
+        self.renamed = dict(getattr(self, "renamed", {}) or {})
+        self.renamed.update(renames.normalise(self))
         return self
 
     # ---- lookups ---------------------------------------------------------------------------
